@@ -240,7 +240,16 @@ def alpha_check(before, after):
                     if o in pm.get(pns, {}) and pm[pns][o] != n:
                         problems.append({"problem": "closure_variable_renamed_differently_from_its_definition", "where": path, "old": o, "new": sorted({pm[pns][o], n})})
             parent = parent.rsplit("/", 1)[0] if "/" in parent else None
-    return problems
+
+    def builtin_swap(pr):
+        # `@classmethod` stays in one class and becomes `@staticmethod` in another: references to builtins that the program never binds are not a binding
+        # that was split or renamed here and not there (whether the swap is right is a question for the execution oracle)
+        if pr.get("problem") not in ("global_renamed_inconsistently_between_scopes", "one_binding_split_into_two_names") or pr.get("namespace", "global") != "global":
+            return False
+        names = {pr.get("old")} | set(pr.get("new") or ())
+        return all(isinstance(n, str) and hasattr(builtins, n) and n not in global_stored for n in names)
+
+    return [pr for pr in problems if not builtin_swap(pr)]
 
 
 # --------------------------------------------------------------------------------- worker side
